@@ -11,6 +11,7 @@
 //   --seed S --shard k --n N
 #include "vfh.h"
 #include <cfloat>
+#include <omp.h>
 #include <votca/xtp/dipoledipoleinteraction.h>
 #include <votca/xtp/eeinteractor.h>
 
@@ -264,6 +265,57 @@ int main(int argc, char **argv) {
   vfh::Reporter R;
   eeInteractor ee;
   LD worst_cluster = 0, worst_sym = 0, worst_rot = 0;
+
+  // --ddi K: the matrix-free dipole-dipole operator on K larger systems (two segments, 30..250 polar sites) applied with
+  // 2..8 OpenMP threads, 12 products each: every product must equal the dense tensor built element by element, the
+  // tensor must be symmetric, and x.(A y) = y.(A x). (The operator is what the induced-dipole solver iterates with.)
+  long nddi = A.num("ddi", 0);
+  if (nddi > 0) {
+    for (long it = 0; it < nddi; ++it) {
+      std::vector<PolarSegment> segs;
+      long per = r.range(15, 125);
+      for (int sgi = 0; sgi < 2; ++sgi) {
+        PolarSegment ps("p", sgi);
+        for (long k = 0; k < per; ++k) {
+          PolarSite site(k, r.pick(ELEMENTS), Eigen::Vector3d(40.0 * sgi + r.uni(0, 30), r.uni(0, 30), r.uni(0, 30)));
+          Eigen::Matrix3d a = Eigen::Matrix3d::Zero();
+          a(0, 0) = r.uni(2, 12); a(1, 1) = r.uni(2, 12); a(2, 2) = r.uni(2, 12);
+          a(0, 1) = a(1, 0) = r.uni(-1, 1); a(0, 2) = a(2, 0) = r.uni(-1, 1); a(1, 2) = a(2, 1) = r.uni(-1, 1);
+          site.setpolarization(a);
+          ps.push_back(site);
+        }
+        segs.push_back(ps);
+      }
+      DipoleDipoleInteraction op(ee, segs);
+      Index N = op.rows();
+      Eigen::MatrixXd D(N, N);
+      for (Index i = 0; i < N; ++i)
+        for (Index j = 0; j < N; ++j) D(i, j) = op(i, j);
+      double dn = D.norm();
+      int threads = (int)r.range(2, 8);
+      omp_set_num_threads(threads);
+      R.eval("ddi_operator_parallel/" + std::to_string(threads) + "threads");
+      R.counter_max("ddi_parallel_max_sites_sum_over_shards", N / 3);
+      R.nontrivial(vfh::hdouble(1234 + (uint64_t)N, D(0, N - 1)));
+      bool bad = (D - D.transpose()).norm() > 1e-13 * dn;
+      double worst = 0, worstxy = 0;
+      for (int rep = 0; rep < 12 && !bad; ++rep) {
+        Eigen::VectorXd x = Eigen::VectorXd::NullaryExpr(N, [&](Index) { return r.normal(); });
+        Eigen::VectorXd y = Eigen::VectorXd::NullaryExpr(N, [&](Index) { return r.normal(); });
+        Eigen::VectorXd ax = op * x, ay = op * y;
+        R.counter("ddi_parallel_products", 2);
+        worst = std::max(worst, (ax - D * x).norm() / (dn * x.norm()));
+        worstxy = std::max(worstxy, std::abs(y.dot(ax) - x.dot(ay)) / (dn * x.norm() * y.norm()));
+        if (worst > 1e-12 || worstxy > 1e-12) bad = true;
+      }
+      omp_set_num_threads(1);
+      if (bad)
+        R.violation("ddi/parallel-operator-inconsistent", "the matrix-free dipole-dipole operator applied with several OpenMP threads is not the symmetric tensor given by its elements",
+                    J().i("polar_sites", N / 3).i("omp_threads", threads).d("asymmetry_of_elements", (D - D.transpose()).norm() / dn).d("multiply_error", worst).d("xAy_minus_yAx", worstxy));
+    }
+    R.summary();
+    return 0;
+  }
 
   for (long it = 0; it < n; ++it) {
     Pair p;
